@@ -56,6 +56,18 @@ from spyne.model.primitive.datetime import TIME_PATTERN, DATE_PATTERN
 from spyne.util.cdict import cdict
 
 
+def _is_native(value, native_type, excluded=()):
+    """Dict documents (YAML timestamps, MessagePack) hand over native values
+    where the text deserializers expect text: an instance of the native type
+    is taken as it is, any other non-text value is invalid."""
+
+    if isinstance(value, six.string_types):
+        return False
+    if isinstance(value, native_type) and not isinstance(value, excluded):
+        return True
+    raise ValidationError(value)
+
+
 _date_re = re.compile(DATE_PATTERN)
 _time_re = re.compile(TIME_PATTERN)
 _duration_re = re.compile(
@@ -288,7 +300,9 @@ class InProtocolBase(ProtocolMixin):
 
         try:
             retval = _uuid_deserialize[ser_as](retval)
-        except (ValueError, TypeError, UnicodeDecodeError) as e:
+        except (ValueError, TypeError, AttributeError,
+                                                      UnicodeDecodeError) as e:
+            # AttributeError: not a string at all (e.g. a number)
             raise ValidationError(e)
 
         return retval
@@ -396,6 +410,9 @@ class InProtocolBase(ProtocolMixin):
     def time_from_unicode(self, cls, string):
         """Expects ISO formatted times."""
 
+        if _is_native(string, time):
+            return string
+
         match = _time_re.match(string)
         if match is None:
             raise ValidationError(string, "%%r does not match regex %r " %
@@ -457,6 +474,9 @@ class InProtocolBase(ProtocolMixin):
         return cls.from_bytes(value)
 
     def datetime_from_unicode_iso(self, cls, string):
+        if _is_native(string, datetime):
+            return string
+
         astz = self.get_cls_attrs(cls).as_timezone
 
         match = cls._utc_re.match(string)
@@ -530,6 +550,9 @@ class InProtocolBase(ProtocolMixin):
                                          "%%r: %s" % repr(e).replace("%", "%%"))
 
     def date_from_unicode(self, cls, string):
+        if _is_native(string, date, excluded=datetime):
+            return string
+
         date_format = self._get_date_format(self.get_cls_attrs(cls))
         try:
             if date_format is not None:
